@@ -2,6 +2,8 @@
 use explorer::{Args, Report};
 
 mod c06;
+mod c08;
+mod fixtures;
 mod c18;
 mod c24;
 
@@ -10,6 +12,7 @@ fn main() {
     explorer::quiet_panics();
     let code = match args.property.as_str() {
         "C06" => c06::run(Report::new(&args, "model_checking")),
+        "C08" => c08::run(Report::new(&args, "model_checking")),
         "C18" => c18::run(Report::new(&args, "model_checking")),
         "C24" => c24::run(Report::new(&args, "model_checking")),
         other => {
